@@ -7,6 +7,7 @@ import (
 	"encoding/json"
 	"errors"
 	"fmt"
+	"io"
 	"os"
 	"path/filepath"
 	"runtime"
@@ -15,6 +16,8 @@ import (
 	carv2 "github.com/ipld/go-car/v2"
 	"github.com/ipld/go-car/v2/storage"
 	"github.com/ipld/go-car/v2/storage/deferred"
+	"github.com/ipld/go-ipld-prime/linking"
+	cidlink "github.com/ipld/go-ipld-prime/linking/cid"
 )
 
 type dfCfg struct {
@@ -122,7 +125,19 @@ func runDeferredCase(c *dfCase, dir string) (string, string) {
 			}
 		case "put":
 			b := alphaByID[st.Op.B]
-			err := w.Put(bg, b.Cid.KeyString(), b.Data)
+			var err error
+			if i%2 == 1 {
+				// the same Put through the writer's BlockWriteOpener (stream the bytes, then commit under the link)
+				var bw io.Writer
+				var commit linking.BlockWriteCommitter
+				bw, commit, err = w.BlockWriteOpener()(linking.LinkContext{Ctx: bg})
+				if err == nil {
+					bw.Write(b.Data)
+					err = commit(cidlink.Link{Cid: b.Cid})
+				}
+			} else {
+				err = w.Put(bg, b.Cid.KeyString(), b.Data)
+			}
 			switch {
 			case errors.Is(err, storage.ErrClosed):
 				res = "closed"
